@@ -119,7 +119,16 @@ func (u *Unit) fieldAddr(base Term, structT types.Type, idx int) Term {
 		// module-private field: unexported field of a struct type declared in this module
 		if st, isSt := structT.Underlying().(*types.Struct); isSt {
 			f := st.Field(idx)
-			if !f.Exported() && f.Pkg() != nil && strings.HasPrefix(f.Pkg().Path(), modulePath) {
+			stable := false
+			if nt, ok := structT.(*types.Named); ok && nt.Obj().Pkg() != nil {
+				full := nt.Obj().Pkg().Name() + "." + nt.Obj().Name()
+				for _, sn := range u.P.StableTypes {
+					if sn == full {
+						stable = true
+					}
+				}
+			}
+			if stable || (!f.Exported() && f.Pkg() != nil && strings.HasPrefix(f.Pkg().Path(), modulePath)) {
 				if u.P.privFa == nil {
 					u.P.privFa = map[string]int{}
 				}
